@@ -24,7 +24,7 @@ ASSUMPTIONS = [
     "jaccard and forbes are not asserted when their denominator is zero.",
 ]
 REQUIRED_CLASSES = ["coincident-endpoint", "nested", "duplicate", "touches-0", "touches-end", "empty-set", "merge-distance>0", "pair", "minus-strand",
-                    "clip-out-of-bounds", "two-contigs", "set-absent-from-a-contig"]
+                    "clip-out-of-bounds", "two-contigs", "set-absent-from-a-contig", "depth-over-127"]
 BOUNDS = {"quick": "exhaustive: singles S<=6 (up to 3 intervals, all merge distances), pairs S<=5 (up to 2+2 intervals); 2000 sampled", "thorough": "exhaustive: singles S<=8, pairs S<=6 (2+2) and S<=4 (3+3); 20000 sampled (S<=300, up to 30 intervals)"}
 BUDGET_S = {"quick": 200, "thorough": 1500}
 
@@ -91,9 +91,20 @@ def disjoint(ivs):
     return all(s[i][1] <= s[i + 1][0] for i in range(len(s) - 1))
 
 
+def intervals_of(case):
+    """case['a'], with (case['deep'] = [index, times]) one of its intervals present that many more times: coverage far deeper than a handful."""
+    a = [tuple(x) for x in case["a"]]
+    if case.get("deep") and a:
+        i, times = case["deep"]
+        a = a + [a[i % len(a)]] * times
+    return a
+
+
 def classify(case):
-    a, S = [tuple(x) for x in case["a"]], case["S"]
+    a, S = intervals_of(case), case["S"]
     cl = []
+    if case.get("deep") and a:
+        cl.append("depth-over-127" if case["deep"][1] >= 127 else "depth-over-20")
     ends = [p for iv in a for p in iv]
     if len(set(ends)) < len(ends):
         cl.append("coincident-endpoint")
@@ -129,7 +140,7 @@ def check(case, stats=None):
     from bionumpy.datatypes import Interval
     from bionumpy.arithmetics import intervals as iv
     S = case["S"]
-    a = [tuple(x) for x in case["a"]]
+    a = intervals_of(case)
     out = []
     ta = make(a)
     before = snap(ta)
@@ -357,6 +368,9 @@ def sampled_case(draw, Smax, nmax):
     case = {"S": S, "a": a, "distances": sorted(set(draw(st.lists(st.integers(0, S), min_size=1, max_size=3)) + [0])),
             "order": draw(st.lists(st.integers(0, 40), min_size=1, max_size=12)) if a else None,
             "lengths": draw(st.lists(st.integers(1, S + 2), min_size=1, max_size=2))}
+    if a and draw(st.integers(0, 5)) == 0:
+        # the same interval many times over: depths beyond a byte's range, and beyond a signed byte's
+        case["deep"] = [draw(st.integers(0, len(a) - 1)), draw(st.sampled_from([20, 100, 126, 127, 128, 129, 200, 254, 255, 256, 257, 300, 600]))]
     if a:
         case["strands"] = "".join(draw(st.lists(st.sampled_from("+-"), min_size=1, max_size=6)))
         case["clip"] = [[x - draw(st.integers(0, 3)), y + draw(st.integers(0, 3))] for x, y in a[:6]]
@@ -370,6 +384,7 @@ def sampled_case(draw, Smax, nmax):
             case["b"] = disjoint_set()
             case.pop("strands", None)
             case.pop("clip", None)
+            case.pop("deep", None)
             case["order"] = None
         else:
             case["b"] = [interval() for _ in range(draw(st.integers(0, nmax)))]
